@@ -635,6 +635,72 @@ impl Net {
                 let _ = s.shutdown(NetShutdown::Write);
                 Some("ok".into())
             }
+            ["cl.call", op, rest @ ..] => {
+                // the client library against a one-shot scripted server: `cl.call get <k> reply=<hex|eof>` etc.
+                // answers what the call returns and the request bytes the client sent
+                let reply = rest.last()?.strip_prefix("reply=")?.to_string();
+                let args = &rest[..rest.len() - 1];
+                let reply_bytes = if reply == "eof" { vec![] } else { unhex(&reply)? };
+                let listener = std::net::TcpListener::bind("127.0.0.1:0").ok()?;
+                let addr = listener.local_addr().ok()?;
+                let srv = std::thread::spawn(move || {
+                    let mut got = vec![];
+                    if let Ok((mut s, _)) = listener.accept() {
+                        // the request is complete when nothing more arrives for a moment
+                        let _ = s.set_read_timeout(Some(Duration::from_millis(150)));
+                        let mut tmp = [0u8; 65536];
+                        loop {
+                            match s.read(&mut tmp) {
+                                Ok(0) => break,
+                                Ok(n) => got.extend_from_slice(&tmp[..n]),
+                                Err(_) => break,
+                            }
+                        }
+                        let _ = s.write_all(&reply_bytes);
+                        let _ = s.shutdown(NetShutdown::Both);
+                    }
+                    got
+                });
+                let key_of = |h: &str| -> Option<String> { String::from_utf8(unhex(h)?).ok() };
+                let out = self.rt.block_on(async {
+                    let mut c = match bitcask::net::Client::connect(addr).await {
+                        Ok(c) => c,
+                        Err(e) => return Some(format!("err connect {}", e)),
+                    };
+                    let show_err = |e: bitcask::net::Error| -> String {
+                        let t = format!("{:?}", e);
+                        match e {
+                            bitcask::net::Error::Storage(m) => format!("err storage:{}", hex_tok(m.to_string().as_bytes())),
+                            bitcask::net::Error::Command(_) => "err badframe".into(),
+                            bitcask::net::Error::Frame(_) => "err frame".into(),
+                            bitcask::net::Error::Io(_) => "err reset".into(),
+                            #[allow(unreachable_patterns)]
+                            _ => format!("err other {}", t),
+                        }
+                    };
+                    Some(match (*op, args) {
+                        ("get", [k]) => match c.get(key_of(k)?).await {
+                            Ok(Some(v)) => format!("ok B:{}", hex_tok(&v)),
+                            Ok(None) => "ok N".into(),
+                            Err(e) => show_err(e),
+                        },
+                        ("set", [k, v]) => match c.set(key_of(k)?, Bytes::from(unhex(v)?)).await {
+                            Ok(()) => "ok".into(),
+                            Err(e) => show_err(e),
+                        },
+                        ("del", [ks]) => {
+                            let keys: Option<Vec<String>> = ks.split(',').map(key_of).collect();
+                            match c.del(keys?).await {
+                                Ok(n) => format!("ok I:{}", n),
+                                Err(e) => show_err(e),
+                            }
+                        }
+                        _ => return None,
+                    })
+                })?;
+                let req = srv.join().unwrap_or_default();
+                Some(format!("{} req={}", out, hex_tok(&req)))
+            }
             ["c.close", id] => {
                 self.conns.remove(*id)?;
                 Some("ok".into())
